@@ -24,6 +24,8 @@ type goroutine struct {
 	recvVal value
 	recvOk  bool
 	name    string
+	nid     int // id in the native replay (-1: not created by instrumented code)
+	parkSeq int // when it parked on its channel operation (FIFO service order)
 }
 
 type sched struct {
@@ -33,6 +35,7 @@ type sched struct {
 	switches int
 	doneCh   chan pathEnd
 	live     int
+	parkCounter int
 }
 
 type channel struct {
@@ -76,7 +79,7 @@ func (in *Interp) objID(o any) int {
 // spawn starts a new interpreted goroutine (not scheduled until the next scheduling point).
 func (in *Interp) spawn(fn value, args []value, pos token.Pos) *goroutine {
 	s := in.sched
-	g := &goroutine{id: len(s.gs), wake: make(chan struct{}), fired: -1}
+	g := &goroutine{id: len(s.gs), wake: make(chan struct{}), fired: -1, nid: -1}
 	if f, ok := fn.(*ssa.Function); ok && f != nil {
 		g.name = f.String()
 	} else if c, ok := fn.(*closure); ok {
@@ -226,9 +229,11 @@ func (in *Interp) reschedule(me *goroutine, exiting bool) {
 func (in *Interp) yield() {
 	s := in.sched
 	if s.live <= 1 && len(in.timers) == 0 {
+		in.spRecord()
 		return
 	}
 	in.reschedule(s.cur, false)
+	in.spRecord()
 }
 
 // block parks the current goroutine until ready() holds.
@@ -246,18 +251,25 @@ func (in *Interp) block(why string, ready func() bool) {
 // ---------------------------------------------------------------------------
 // channels
 
+// parkedOn returns the goroutine that has been parked longest on ch in the given direction
+// (the Go runtime serves waiters in FIFO order).
 func (in *Interp) parkedOn(ch *channel, send bool) (*goroutine, int) {
+	var best *goroutine
+	bj := -1
 	for _, g := range in.sched.gs {
 		if g.done || g == in.sched.cur || g.fired >= 0 {
 			continue
 		}
 		for j, c := range g.waiting {
 			if c.ch == ch && c.send == send {
-				return g, j
+				if best == nil || g.parkSeq < best.parkSeq {
+					best, bj = g, j
+				}
+				break
 			}
 		}
 	}
-	return nil, -1
+	return best, bj
 }
 
 func (in *Interp) caseReady(c selCase) bool {
@@ -299,6 +311,12 @@ func (in *Interp) perform(c selCase) (value, bool) {
 	if len(ch.buf) > 0 {
 		v := ch.buf[0]
 		ch.buf = ch.buf[1:]
+		// a sender parked on the full buffer is completed right away (runtime behaviour)
+		if g, j := in.parkedOn(ch, true); g != nil && !ch.closed {
+			ch.buf = append(ch.buf, g.waiting[j].val)
+			g.fired = j
+			g.waiting = nil
+		}
 		return v, true
 	}
 	if g, j := in.parkedOn(ch, true); g != nil {
@@ -337,6 +355,8 @@ func (in *Interp) doSelect(cases []selCase, blocking bool) (int, value, bool) {
 		}
 		me.waiting = cases
 		me.fired = -1
+		in.sched.parkCounter++
+		me.parkSeq = in.sched.parkCounter
 		in.block("chan", func() bool {
 			if me.fired >= 0 {
 				return true
@@ -444,6 +464,11 @@ func (in *Interp) fireDueTimers() {
 }
 
 func (in *Interp) fireTimer(t *timer) {
+	// a callback that re-arms its own timer with a zero delay never lets the path end
+	in.timerFires++
+	if in.timerFires > 20000 {
+		panic(pathEnd{"inconclusive", "more than 20000 timer firings on one path (timer livelock?)"})
+	}
 	t.active = false
 	if t.period != nil {
 		t64 := types.Typ[types.Int64]
